@@ -74,6 +74,10 @@ CHECKS['C17'] = ('4.C17', 'utf8_append_utf32 is proved over all 2^32 code points
                  'otherwise; prefix preserved) on a real std::string sink with libstdc++ append modelled on the SSO layout; unhex_char/unhex_string for all digit strings up to the type width; unescape_c/x/u and '
                  'append_all; unescape_j for 1..3 (thorough 4) escapes with fully symbolic hex digits: throws iff a lone surrogate, else exact concatenation with pairs combined.')
 
+CHECKS['C07'] = ('4.C07', 'buffer_input is verified per operation from an arbitrary valid state (reached by real require/bump/discard calls with symbolic arguments, Chunk 1/2/4, small maxima) with a symbolic '
+                 'stream and a reader that returns every legal short-read pattern: representation invariant, require = overflow_error exactly when the request does not fit else enough data whatever the read sizes, '
+                 'discard preserves window and counters, bump/rewind; 12 leaf rules give the same result/consumption/position/error on the buffer input as on a memory input over the rest of the stream, or '
+                 'overflow_error. string_input/argv_input hand-off checked. File/mmap/stdio/iostream inputs are I/O and FFI: not applicable parts.')
 E2TRUST = ('Trusted: the hand transcription of the RFC ABNF (spec/*.abnf), the PEG combinator and atom semantics written in lib/peg2smt/pegenc.py (the same semantics the CBMC engine proves for the real '
            'combinators and atoms in C01/C09/C10/C15), z3 4.8/5.1 and cvc5 1.0 (cross-checked against each other for small n), the dumper that reads the grammar structure from the compiler '
            '(rule_t/subs_t of the real headers, regenerated on every run). Encoder validated on every run against the real compiled parser and an independent recogniser on corpus and solver-chosen strings.')
